@@ -2,6 +2,7 @@ package rt
 
 import (
 	"encoding/binary"
+	"encoding/json"
 	"fmt"
 	"os"
 	"runtime"
@@ -78,6 +79,21 @@ func SlotSet(i int, run string, ops []byte) {
 	binary.LittleEndian.PutUint16(b[o:o+2], uint16(len(ops)))
 	copy(b[o+2:], ops)
 	binary.LittleEndian.PutUint64(b[0:8], uint64(time.Now().UnixNano()))
+}
+
+// JSONRun marks a slot whose payload is the JSON of a replay map (enumerations that are not histories of one alphabet).
+const JSONRun = "@json"
+
+// SlotSetJSON notes the case (its replay map) the worker is about to run.
+func SlotSetJSON(i int, replay any) {
+	if slotMem == nil {
+		return
+	}
+	b, err := json.Marshal(replay)
+	if err != nil || len(b) > slotSize-32 {
+		return
+	}
+	SlotSet(i, JSONRun, b)
 }
 
 // SlotClear notes that the worker is idle.
